@@ -172,8 +172,21 @@ theorem pointCross_self (a : V3) (ha : UnitIsh a) : Crossing.pointCross a a = a.
     have t2 : toInt ((a.add a).cross (a.sub a)).y = 0 := toInt_zero_of_rv w2
     have t3 : toInt ((a.add a).cross (a.sub a)).z = 0 := toInt_zero_of_rv w3
     rw [t1, t2, t3]
-  unfold Crossing.pointCross
-  simp only [hfeq, if_true]
+  -- repaired `PointCross` (D60): the float value is the zero vector, below the threshold; the EXACT product a × a is zero too
+  have hge : F64.ge (EdgeNum.pointCrossFloat a a).norm2 EdgeNum.pointCrossMinNorm2 = false :=
+    not_ge_of_feq_zero _ hfeq
+  have hiz : ((EdgeNum.PV.ofV3 a).cross (EdgeNum.PV.ofV3 a)).isZero = true := by
+    have e1 : toInt a.y * toInt a.z - toInt a.z * toInt a.y = 0 := by rw [Int.mul_comm]; exact Int.sub_self _
+    have e2 : toInt a.z * toInt a.x - toInt a.x * toInt a.z = 0 := by rw [Int.mul_comm]; exact Int.sub_self _
+    have e3 : toInt a.x * toInt a.y - toInt a.y * toInt a.x = 0 := by rw [Int.mul_comm]; exact Int.sub_self _
+    simp only [EdgeNum.PV.isZero, EdgeNum.PV.cross, EdgeNum.PV.ofV3, EdgeNum.SZ.sub, EdgeNum.SZ.mul, EdgeNum.SZ.ofF64,
+      e1, e2, e3]
+    decide
+  show EdgeNum.pointCross a a = a.ortho
+  rw [EdgeNum.pointCross_eq_exact_of_not_ge a a hge]
+  unfold EdgeNum.pointCrossExact
+  simp only [hiz]
+  rfl
 
 /-- a product `x·y` with `|x| ≤ m`, `|y| ≤ C` -/
 theorem mul_bd2' {x y m C : ℝ} (hx : |x| ≤ m) (hy : |y| ≤ C) : -(m * C) ≤ x * y ∧ x * y ≤ m * C := by
